@@ -638,6 +638,181 @@ def r12(ctx, rep):
               "`top bogus:1` is accepted (the unknown named argument is not reported) and `top n:3` silently uses the default", file=f["file"], line=cl["l"], fn=f["path"])
 
 
+def pl_carrying(syn):
+    """names of PL / parser types that (transitively) contain an expression: what a folder has to visit"""
+    adts = [a for a in syn.adts if (a["crate"] == "prqlc" and "/ir/pl/" in a["file"]) or (a["crate"] == "prqlc_parser" and ("/parser/pr/" in a["file"] or a["file"].endswith("generic.rs")))]
+    carrying = {"Expr", "T"}          # (T: the generic slot of pr::Range / SwitchCase / InterpolateItem, instantiated with Expr)
+    changed = True
+    while changed:
+        changed = False
+        for a in adts:
+            if a["name"] in carrying:
+                continue
+            tys = [f_["ty"] for f_ in a.get("fields", [])] if a["kind"] == "struct" else [f_["ty"] for v in a.get("variants", []) for f_ in v["fields"]] if a["kind"] == "enum" else [a.get("ty", "")]
+            if any(set(re.findall(r"[A-Za-z_][A-Za-z0-9_]*", t or "")) & carrying for t in tys):
+                carrying.add(a["name"])
+                changed = True
+    by = {}
+    for a in adts:
+        # (pl re-exports the parser's generic types as aliases `type InterpolateItem = generic::InterpolateItem<Expr>`: the definition wins)
+        if a["name"] not in by or (by[a["name"]]["kind"] == "alias" and a["kind"] != "alias") or (a["crate"] == "prqlc" and a["kind"] != "alias" and by[a["name"]]["crate"] != "prqlc"):
+            by[a["name"]] = a
+    return carrying, by
+
+
+# expression-carrying fields the default folder copies on purpose, one reason each
+R13_REVIEWED = {
+    "Func.params": "parameter defaults and types are folded by the resolver when the function is applied (apply_args_to_closure / fold_function), in the scope of the call",
+    "Func.named_params": "as Func.params",
+    "Func.env": "values a closure has captured are already resolved; they are substituted, not looked up",
+    "FuncParam.ty": "types are folded by fold_type where the resolver needs them; a parameter type holds no column reference",
+}
+
+
+def r13(ctx, rep):
+    rep.rule("C10.R13", "the default PL folder visits every sub-expression: a name in a part that is skipped is never resolved, so an unknown or out-of-scope name there is accepted", floor=30)
+    syn = ctx.syn
+    carrying, adts = pl_carrying(syn)
+    fns = [f for f in syn.fns if f["crate"] == "prqlc" and f["file"].endswith("ir/pl/fold.rs") and f["name"].startswith("fold_") and "body" in f and not f.get("trait_default") and not f.get("self_short")]
+
+    def folded(expr):
+        for n in walk(expr):
+            if n.get("k") == "mcall" and n["m"].startswith("fold") and show(n["r"]) in ("fold", "self", "folder"):
+                return True
+            if n.get("k") == "call" and last_seg(show(n["f"])).startswith("fold_"):
+                return True
+        return False
+
+    def variants_named(name):
+        out = []
+        for a in adts.values():
+            if a["kind"] == "enum":
+                for v in a["variants"]:
+                    if v["name"] == name:
+                        out.append((a, v))
+        return out
+
+    def carries(tys):
+        return bool(set(re.findall(r"[A-Za-z_][A-Za-z0-9_]*", " ".join(t or "" for t in tys))) & carrying)
+
+    def irrefutable(p):
+        k = p.get("k")
+        if k in ("p_wild", "p_rest"):
+            return True
+        if k == "p_ident":
+            return not p["n"][0].isupper() and (p.get("sub") is None or irrefutable(p["sub"]))
+        if k in ("p_tuple",):
+            return all(irrefutable(x) for x in p["e"])
+        if k == "p_struct" and last_seg(p["p"]) in adts and adts[last_seg(p["p"])]["kind"] == "struct":
+            return all(irrefutable(x[1]) for x in p["f"] if len(x) > 1 and isinstance(x[1], dict))
+        if k == "p_ts" and last_seg(p["p"]) in adts and adts[last_seg(p["p"])]["kind"] == "struct":
+            return all(irrefutable(x) for x in p["e"])
+        return False
+
+    n_fields = 0
+    for f in fns:
+        # (a) nothing is dropped from a collection on its way through the folder
+        for n in walk(f["body"]):
+            if n.get("k") == "mcall" and n["m"] in DROPPING:
+                rep.bad(f"drops:{f['name']}:{n['m']}", f"{f['name']} passes a collection through `.{n['m']}(..)`: the elements it removes are never folded (resolved), so an unknown name inside them is accepted "
+                        "and the element silently disappears", file=f["file"], line=n["l"], fn=f["path"])
+        # (b) rebuilt structs: every expression-carrying field goes through the folder
+        for n in walk(f["body"]):
+            if n.get("k") != "struct":
+                continue
+            name = last_seg(n["p"])
+            fields = owner = None
+            a = adts.get(name)
+            if a and a["kind"] == "struct":
+                fields, owner = {x["name"]: x["ty"] for x in a["fields"]}, name
+            else:
+                for a_, v in variants_named(name):
+                    if v["shape"] == "struct":
+                        fields, owner = {x["name"]: x["ty"] for x in v["fields"]}, a_["name"] + "::" + name
+            if fields is None:
+                continue
+            rest = n.get("rest")
+            for fname, fval in n["f"]:
+                ty = fields.get(fname)
+                if ty is None or not carries([ty]):
+                    continue
+                n_fields += 1
+                rep.check(folded(fval), f"field:{f['name']}:{owner}.{fname}", f"{f['name']} rebuilds {owner}.{fname} ({ty}) as `{show(fval, maxdepth=5)}` without passing it through the folder: names inside it "
+                          "are never resolved", file=f["file"], line=n["l"], fn=f["path"])
+            if isinstance(rest, dict):
+                given = {x[0] for x in n["f"]}
+                skipped = [k_ for k_, t_ in fields.items() if k_ not in given and carries([t_]) and f"{owner}.{k_}" not in R13_REVIEWED]
+                rep.check(not skipped, f"rest:{f['name']}:{owner}", f"{f['name']} copies {skipped} of {owner} with `..{show(rest)}`: expression-carrying fields that are not folded", file=f["file"], line=n["l"], fn=f["path"])
+        # (c) matches over the folded value: an arm of a variant with an expression payload folds it and takes the variant whole (no refutable
+        #     sub-pattern that sends some of its values to an arm that returns them as they are)
+        for m in matches_of(f["body"]):
+            covered = set()
+            for arm in m["arms"]:
+                for alt in pat_alts(arm["pat"]):
+                    inner = alt
+                    while inner.get("k") == "p_ident" and inner.get("sub") is not None:
+                        inner = inner["sub"]
+                    if inner.get("k") not in ("p_ts", "p_struct", "p_path") and not (inner.get("k") == "p_ident" and inner["n"][0].isupper()):
+                        continue
+                    vname = last_seg(inner.get("p") or inner.get("n"))
+                    vs = variants_named(vname)
+                    segs = (inner.get("p") or inner.get("n") or "").split("::")
+                    if len(segs) >= 2 and any(a0["name"] == segs[-2] for a0, _ in vs):
+                        vs = [(a0, v0) for a0, v0 in vs if a0["name"] == segs[-2]]
+                    if not vs:
+                        continue
+                    a_, v = vs[0]
+                    if not carries([x["ty"] for x in v["fields"]]):
+                        continue
+                    subs = inner.get("e") or [x[1] for x in inner.get("f", []) if len(x) > 1 and isinstance(x[1], dict)]
+                    whole = all(irrefutable(x) for x in subs) and arm.get("guard") is None
+                    key = f"arm:{f['name']}:{a_['name']}::{vname}"
+                    if whole and vname not in covered:
+                        covered.add(vname)
+                        n_fields += 1
+                        rep.check(folded(arm["body"]), key, f"{f['name']} rebuilds {a_['name']}::{vname} as `{show(arm['body'], maxdepth=5)}` without passing its payload through the folder",
+                                  file=f["file"], line=arm["l"], fn=f["path"])
+                    elif vname not in covered:
+                        # a partial arm: the values it does not take must reach an arm that folds them
+                        later = [b for b in m["arms"] if b is not arm and b["l"] >= arm["l"] and any(last_seg((x.get("p") or x.get("n") or "")) == vname or x.get("k") in ("p_wild",) or
+                                                                                                     (x.get("k") == "p_ident" and not x["n"][0].isupper() and x.get("sub") is None)
+                                                                                                     for y in pat_alts(b["pat"]) for x in [y if y.get("k") != "p_ident" or y.get("sub") is None else y["sub"]])]
+                        ok = folded(arm["body"]) and all(folded(b["body"]) for b in later) and bool(later)
+                        rep.check(ok, key + ":partial", f"{f['name']} takes only some values of {a_['name']}::{vname} (`{show(arm['pat'], maxdepth=6)}`"
+                                  f"{' if ' + show(arm['guard']) if arm.get('guard') is not None else ''}); the others must reach an arm that folds them too, found "
+                                  f"{[show(b['body'], maxdepth=4)[:40] for b in later]}", file=f["file"], line=arm["l"], fn=f["path"])
+    rep.check(n_fields >= 25, "sites", f"expected the default folders of ir/pl/fold.rs (fold_expr_kind, fold_func_call, fold_transform_kind ..), found {n_fields} expression-carrying fields / variants in {len(fns)} functions")
+
+
+def r14(ctx, rep):
+    rep.rule("C10.R14", "a column reference that is inlined into a frame (the key side of `group`) is known by the name of the column it refers to, never by an alias: "
+             "the partition frame excludes exactly the key columns", floor=2)
+    syn = ctx.syn
+    import alpha
+    f = syn.fn("Lineage::apply_assign", crate="prqlc")
+    A = alpha.Inliner(f)
+    br = [n for n in walk(f["body"]) if n.get("k") == "if" and n["c"].get("k") != "let" and re.search(r"\binline_refs\b", show(n["c"]))]
+    if not br:
+        raise AnchorMissing("apply_assign: the branch for inlined references (`if inline_refs && ..`)")
+    n_lit = 0
+    for b in br:
+        for n in walk(b["t"]):
+            if n.get("k") == "struct" and last_seg(n["p"]) == "Single" and "LineageColumn" in n["p"]:
+                d = dict(n["f"])
+                if "name" not in d:
+                    continue
+                n_lit += 1
+                nm = A.show(d["name"], strip=True).replace(" ", "")
+                tn = A.show(d["target_name"], strip=True).replace(" ", "") if "target_name" in d else ""
+                src = re.search(r"expr\.kind\.as_ident\(\)", nm) is not None and "alias" not in nm
+                rep.check(src, f"inline-ref:name:{n_lit}", f"the inlined reference is recorded under `{nm[:90]}`: it must be the identifier of `expr.kind` (the column referred to), not the alias - "
+                          "`group {g = a} (aggregate {max a})` otherwise leaves `a` visible inside the group", file=f["file"], line=n["l"], fn=f["path"])
+                if tn and tn != "None":
+                    rep.check("alias" not in tn and "expr.kind.as_ident()" in tn, f"inline-ref:target-name:{n_lit}", f"target_name of an inlined reference must be the referred column's name; found `{tn[:90]}`",
+                              file=f["file"], line=n["l"], fn=f["path"])
+    rep.check(n_lit >= 1, "inline-ref:sites", f"expected LineageColumn::Single literals in the inline_refs branch of apply_assign, found {n_lit}", file=f["file"], line=f["l"], fn=f["path"])
+
+
 def run(ctx, rep):
-    for r in (r1, r2, r3, r4, r5, r6, r7, r8, r9, r10, r11, r12):
+    for r in (r1, r2, r3, r4, r5, r6, r7, r8, r9, r10, r11, r12, r13, r14):
         rep.guard(r, ctx)
